@@ -177,6 +177,7 @@ def _get_reduce_debt_result_in_vault(self, vault, nft_eth_amount, nft_osqth_amou
     vault.osqth_short_amount -= burn
     vault.uni_nft_id = None
     vault.collateral_amount += nft_eth_amount
+    bounty = bounty if bounty < vault.collateral_amount else vault.collateral_amount
     vault.collateral_amount -= bounty
     return burn, excess, bounty
 '''
